@@ -42,6 +42,8 @@ const WATCHDOG_SECS: u64 = 30;
 enum Case {
     Utf(Vec<char>),
     Latin1File(Vec<u8>),
+    /// A large file on disk described by its construction (see border_file): not expanded in the case line.
+    Border { border: usize, delta: i64, eol: u8, hi: bool },
 }
 
 fn case_line(c: &Case) -> String {
@@ -59,6 +61,52 @@ fn case_line(c: &Case) -> String {
                 write!(out, " {}", b).unwrap();
             }
         }
+        Case::Border { border, delta, eol, hi } => {
+            write!(out, "B {} {} {} {}", border, delta + 1000, eol, if *hi { 1 } else { 0 }).unwrap();
+        }
+    }
+    out
+}
+
+/// A file whose line ending number k (LF, CR or CRLF according to `eol` = 0, 1, 2) starts at byte offset
+/// `border - 1 + delta`, i.e. around a block border of a reader that works in blocks: comment lines of about
+/// 64 bytes padded to the exact size, then declarations whose tokens lie BEHIND the border.  With `hi` the
+/// comments next to the border hold Latin-1 bytes above 0x7F.
+fn border_file(border: usize, delta: i64, eol: u8, hi: bool) -> Vec<u8> {
+    let nl: &[u8] = match eol {
+        0 => b"\n",
+        1 => b"\r",
+        _ => b"\r\n",
+    };
+    let target = (border as i64 - 1 + delta) as usize; // offset of the first byte of the designated line ending
+    let mut out: Vec<u8> = Vec::with_capacity(target + 400);
+    out.extend_from_slice(b"entity first is end; -- tokens in front of the border");
+    out.extend_from_slice(nl);
+    while out.len() + 160 < target {
+        out.extend_from_slice(b"-- ");
+        out.extend(std::iter::repeat(b'x').take(58));
+        out.extend_from_slice(nl);
+    }
+    out.extend_from_slice(b"-- ");
+    let fill = target - out.len();
+    for i in 0..fill {
+        out.push(if hi && i + 4 >= fill { 0xE9 } else { b'p' });
+    }
+    assert_eq!(out.len(), target);
+    out.extend_from_slice(nl);
+    if hi {
+        out.extend_from_slice(b"-- \xE9\xFF\xD7");
+        out.extend_from_slice(nl);
+    }
+    for l in [
+        &b"entity e is"[..],
+        b"  port (yy : in bit; zz : out bit_vector(7 downto 0) := x\"AB\" & 16#FF#); -- trailing \xE9",
+        b"end entity;",
+        b"",
+        b"architecture a of e is begin zz(0) <= yy; end;",
+    ] {
+        out.extend_from_slice(l);
+        out.extend_from_slice(nl);
     }
     out
 }
@@ -70,6 +118,12 @@ fn parse_case(line: &str) -> Option<Case> {
     match tag {
         "U" => Some(Case::Utf(nums.iter().map(|x| char::from_u32(*x).unwrap()).collect())),
         "L" => Some(Case::Latin1File(nums.iter().map(|x| *x as u8).collect())),
+        "B" if nums.len() == 4 => Some(Case::Border {
+            border: nums[0] as usize,
+            delta: nums[1] as i64 - 1000,
+            eol: nums[2] as u8,
+            hi: nums[3] != 0,
+        }),
         _ => None,
     }
 }
@@ -410,6 +464,12 @@ fn run_case(symbols: &Symbols, kws: &[Kind], case: &Case, tmp: &Path) -> String 
                 let src = Source::from_latin1_file(tmp).unwrap();
                 (src, bs.iter().map(|b| *b as char).collect())
             }
+            Case::Border { border, delta, eol, hi } => {
+                let bs = border_file(*border, *delta, *eol, *hi);
+                std::fs::write(tmp, &bs).unwrap();
+                let src = Source::from_latin1_file(tmp).unwrap();
+                (src, bs.iter().map(|b| *b as char).collect())
+            }
         };
         let lx = lex_source(symbols, &src, text.len());
         let toks = lx.toks.iter().map(|t| fmt_token(t, kws)).collect::<Vec<_>>().join(";");
@@ -452,7 +512,14 @@ const DELIMS: [&str; 39] = [
     "/=", "*", "**", "?", "??", "?=", "?/=", "?<", "?<=", "?>", "?>=", "^", "@", "|", "[", "]", "`", "?/",
 ];
 const LATIN: [char; 14] = ['a', 'Z', '0', ' ', '_', 'é', 'ÿ', 'À', '×', '÷', 'ß', 'Þ', '\u{a0}', '~'];
-const ANYC: [char; 12] = ['a', 'b', ' ', '€', '😀', '𝔘', 'é', '\t', '*', '/', '-', '\u{2028}'];
+const ANYC: [char; 15] = [
+    'a', 'b', ' ', '€', '😀', '𝔘', 'é', '\t', '*', '/', '-', '\u{2028}', '\u{feff}', '\u{2029}', '\u{85}',
+];
+/// characters some tools treat as invisible, as white space or as line breaks: none of them is a line break or
+/// a blank for the front end, each is one character of the client's text
+const SPECIALS: [char; 10] = [
+    '\u{feff}', '\u{2028}', '\u{2029}', '\u{85}', '\u{c}', '\u{b}', '\u{0}', '\u{fffe}', '\u{200b}', '\u{a0}',
+];
 const NUMS: [&str; 64] = [
     "0", "7", "12_000", "1e3", "1E+3", "2e-0", "1e-1", "18446744073709551615", "18446744073709551616", "1e19", "1e20",
     "0e25", "1.5", "1.5e-3", "1_0.2_5E+10", "1.", "1.a", "1.5.3", "1g.5", "16#FF#", "2#1010_1010#", "8#77#E1", "16#F.F#",
@@ -618,10 +685,32 @@ fn gen_soup(rng: &mut Rng, kwnames: &[String], dirty: bool) -> String {
     text
 }
 
+/// one text in eight starts with (or gets somewhere) a character of SPECIALS
+fn with_special(rng: &mut Rng, s: String) -> String {
+    match rng.below(16) {
+        0 => format!("{}{}", rng.pick(&SPECIALS), s),
+        1 => {
+            let cs: Vec<char> = s.chars().collect();
+            let at = rng.below(cs.len() + 1);
+            let mut out: String = cs[..at].iter().collect();
+            out.push(*rng.pick(&SPECIALS));
+            out.extend(cs[at..].iter());
+            out
+        }
+        _ => s,
+    }
+}
+
 fn gen_random(rng: &mut Rng, kwnames: &[String]) -> Case {
     match rng.below(10) {
-        0..=2 => Case::Utf(gen_soup(rng, kwnames, false).chars().collect()),
-        3..=6 => Case::Utf(gen_soup(rng, kwnames, true).chars().collect()),
+        0..=2 => {
+            let t = gen_soup(rng, kwnames, false);
+            Case::Utf(with_special(rng, t).chars().collect())
+        }
+        3..=6 => {
+            let t = gen_soup(rng, kwnames, true);
+            Case::Utf(with_special(rng, t).chars().collect())
+        }
         7 => {
             // random characters over a large alphabet
             const A: [char; 40] = [
@@ -738,6 +827,35 @@ fn main() {
         for _ in 0..n {
             let c = gen_random(&mut rng, &kwnames);
             emit(c);
+        }
+    } else if mode == "borders" || mode == "borders_thorough" {
+        // files on disk around the borders of 4 KiB .. 64 KiB blocks; n > 0: the files up to 16 KiB are emitted
+        // as `L` cases (bytes spelled out, compared with the model), the others as `B` descriptors
+        let thorough = mode == "borders_thorough";
+        let borders: &[usize] = if thorough {
+            &[4096, 8192, 16384, 32768, 65536, 131072, 196608, 262144]
+        } else {
+            &[4096, 8192, 65536, 131072]
+        };
+        for &border in borders {
+            for eol in [2u8, 0, 1] {
+                for delta in -8i64..=8 {
+                    if !thorough && eol != 2 && delta.abs() > 1 {
+                        continue;
+                    }
+                    for hi in [false, true] {
+                        if hi && (delta.abs() > 1 || (!thorough && eol != 2)) {
+                            continue;
+                        }
+                        let spelled = border <= 8192 || (eol == 2 && delta == 0 && !hi && border <= 131072);
+                        if spelled {
+                            emit(Case::Latin1File(border_file(border, delta, eol, hi)));
+                        } else {
+                            emit(Case::Border { border, delta, eol, hi });
+                        }
+                    }
+                }
+            }
         }
     } else if let Some(path) = mode.strip_prefix("file:") {
         for line in std::fs::read_to_string(path).unwrap().lines() {
